@@ -160,7 +160,8 @@ def execute(pack, fc, hist, seed, pid=PID, ch=None, fixed=None, enc="direct"):
     for i, kind in enumerate(hist):
         lens = [PLENS[(2 * i + k) % 6] for k in range({"S": 1, "L": 2, "R": 0}[kind])]
         bounds.append(lens)
-    w.horizon = w.now + 3 * sum(call_bound_ns(fc, k, l or [32]) for k, l in zip(hist, bounds)) + 50 * MS
+    # a call that overruns its bound is a violation anyway: the horizon only has to tell 'slow' from 'never'
+    w.horizon = w.now + 2 * sum(call_bound_ns(fc, k, l or [32]) for k, l in zip(hist, bounds)) + 5 * MS
 
     viol = None
     outcomes = []
